@@ -77,12 +77,17 @@ def gen_case(rng, mixed):
         for _t in range(rng.randrange(1, 5)):
             sends = [rng.randrange(0, rng.choice([1, 2, 3])) for _ in range(rng.randrange(0, 6))]
             stagger = rng.random() < 0.6
+            use_batches = rng.random() < 0.35
             txns.append({
                 "sends": sends,
                 # every send() is its own task; it starts `delays[j]` virtual seconds after begin
                 "delays": [rng.choice(SEND_GAPS) if stagger else 0.0 for _ in sends],
+                # s = send(); batch API: create_batch() before begin (bp) / while the previous transaction is
+                # being ended (be) / inside the transaction (bi), then send_batch() inside the transaction
+                "modes": [rng.choice(["s", "bp", "be", "bi"]) if use_batches else "s" for _ in sends],
                 "await": rng.random() < 0.4,
-                "offsets": rng.random() < 0.35,
+                # size of the offsets map (0 = no send_offsets_to_transaction)
+                "offsets": rng.choice([1, 2, 3]) if rng.random() < 0.35 else 0,
                 "end": rng.choice(["commit", "commit", "commit", "abort", "ctx_ok", "ctx_exc"]),
                 "linger": rng.choice([0, 0, 5]),
             })
@@ -127,6 +132,9 @@ def gen_case(rng, mixed):
         for _ in range(rng.choice([0, 1, 1, 2])):
             api = rng.choice(list(ABRT_CODES))
             faults.append({"api": api, "nth": rng.randrange(0, 4), "kind": "error", "code": ABRT_CODES[api]})
+        if rng.random() < 0.25:
+            # the group coordinator lookup of send_offsets_to_transaction is refused (abortable)
+            faults.append({"api": "FindCoordinator", "nth": rng.randrange(0, 2), "kind": "group_lookup_denied"})
         for _ in range(rng.choice([0, 0, 1, 1, 2])):
             # a batch fails for good (non-retriable Produce error) - possibly while others are in flight
             faults.append({"api": "Produce", "nth": rng.randrange(0, 4), "kind": "error",
@@ -179,6 +187,31 @@ def exact_families():
                                  "end": "commit", "linger": 0}],
                             [{"api": api, "nth": 0, "kind": "delay", "seconds": 0.4},
                              {"api": "AddPartitionsToTxn", "nth": 0, "kind": "delay", "seconds": 0.3}], False, 1000 + k))
+    # family C: create_batch() at every point relative to begin / commit / abort, send_batch() inside
+    for modes in (["bp"], ["be"], ["bi"], ["bp", "s"], ["s", "be"], ["be", "bp"]):
+        for end in ("abort", "commit", "ctx_exc"):
+            k += 1
+            out.append(case(2, [{"sends": [0], "delays": [0.0], "modes": ["s"], "await": True, "offsets": 0,
+                                 "end": "commit", "linger": 0},
+                                {"sends": list(range(len(modes))), "delays": [0.0] * len(modes), "modes": modes,
+                                 "await": k % 2 == 0, "offsets": 0, "end": end, "linger": 0},
+                                {"sends": [1], "delays": [0.0], "modes": ["be"], "await": True, "offsets": 0,
+                                 "end": "commit", "linger": 0}], [], True, 1000 + k))
+    # family D: offsets maps of 1..3 partitions, the abortable error at each request of send_offsets
+    for size in (1, 2, 3):
+        for flt in ({"api": "TxnOffsetCommit", "nth": 0, "kind": "error", "code": 30},
+                    {"api": "AddOffsetsToTxn", "nth": 0, "kind": "error", "code": 30},
+                    {"api": "FindCoordinator", "nth": 0, "kind": "group_lookup_denied"}):
+            for end in ("commit", "abort"):
+                k += 1
+                c_ = case(2, [{"sends": [0], "delays": [0.0], "modes": ["s"], "await": True, "offsets": size,
+                               "end": end, "linger": 0},
+                              {"sends": [1], "delays": [0.0], "modes": ["s"], "await": True, "offsets": size,
+                               "end": "commit", "linger": 0}], [dict(flt)], True, 1000 + k)
+                # the only fault is an authorization error: it must stay abortable (abort returns, the next
+                # transaction commits), whatever the number of partitions in the offsets map
+                c_["only_abortable"] = True
+                out.append(c_)
     # family B
     for code in NONRETRIABLE_PRODUCE[:2]:
         for d in (0.3, 0.8):
@@ -198,6 +231,7 @@ def exact_families():
 
 def install_faults(env, cluster, case):
     F = env.sim.Fault
+    late = []       # catch-all faults go last (the first fault that wants a request gets it)
     for f in case["faults"]:
         k = f["kind"]
         tp = (TOPIC, f["tp"]) if f.get("tp") is not None and k in ("error", "delay") else None
@@ -208,6 +242,17 @@ def install_faults(env, cluster, case):
             cluster.faults.add(F("delay", api=f["api"], nth=f["nth"], seconds=f["seconds"], tp=tp, count=cnt))
         elif k in ("drop_before", "drop_after", "lose_reply"):
             cluster.faults.add(F(k, api=f["api"], nth=f["nth"]))
+        elif k == "group_lookup_denied":
+            state = {"n": 0}
+
+            def deny(cl, rq, state=state, nth=f["nth"]):
+                req = rq.req
+                ctype = getattr(req, "coordinator_type", 0)
+                if ctype == 0:                      # a lookup of the GROUP coordinator
+                    if state["n"] == nth:
+                        rq.inject = (30, None)      # GROUP_AUTHORIZATION_FAILED
+                    state["n"] += 1
+            late.append(F("call", api="FindCoordinator", count=None, fn=deny, label="group coordinator lookup refused"))
         elif k == "move_coord":
             to = f["to"] % case["nodes"]
             cluster.faults.add(F("call", api=f["api"], nth=f["nth"], label=f"move txn coordinator to {to}",
@@ -216,6 +261,8 @@ def install_faults(env, cluster, case):
             to, tp2 = f["to"] % case["nodes"], (TOPIC, f["tp"])
             cluster.faults.add(F("call", api=f["api"], nth=f["nth"], label=f"move leader of {tp2} to {to}",
                                  fn=lambda cl, rq, to=to, tp2=tp2: cl.set_leader(tp2, to)))
+    for flt in late:
+        cluster.faults.add(flt)
 
 
 # --------------------------------------------------------------------------- the workload itself
@@ -227,6 +274,7 @@ class Obs:
         self.errors = []        # (inc, where, class)
         self.payload_id = {}    # payload -> canonical record id (acceptance order)
         self.nrec = 0
+        self.backpressure = 0   # send()/send_batch() calls that raised KafkaTimeoutError (record not accepted)
 
 
 async def run_incarnation(env, cluster, case, i, spec, obs, boot):
@@ -267,10 +315,33 @@ async def run_incarnation(env, cluster, case, i, spec, obs, boot):
         await TC.kill_producer(p)
         return state
     state["started"] = True
+    prebuilt = {}
+
+    def make_prebuilt(t, mode):
+        """create_batch() for the sends of transaction t that want a batch made at this point"""
+        if t < len(spec["txns"]):
+            txn_ = spec["txns"][t]
+            for j, m in enumerate(txn_.get("modes") or []):
+                if m == mode and (t, j) not in prebuilt:
+                    prebuilt[(t, j)] = p.create_batch()
+
+    async def ending(t, coro):
+        """end the transaction; meanwhile create the batches the next transaction wants made now"""
+        task = asyncio.ensure_future(coro)
+        try:
+            await asyncio.sleep(0)
+            make_prebuilt(t + 1, "be")
+            return await task
+        except asyncio.CancelledError:
+            task.cancel()
+            raise
+
     try:
         for t, txn in enumerate(spec["txns"]):
             rec = {"inc": i, "t": t, "recs": [], "outcome": "open", "offset": None, "offset_ok": False,
-                   "asked": None}
+                   "asked": None, "offset_keys": []}
+            make_prebuilt(t, "be")      # (first transaction: nothing was being ended)
+            make_prebuilt(t, "bp")
             p._message_accumulator._linger_time = txn["linger"] / 1000
             ctx = p.transaction() if txn["end"].startswith("ctx") else None
             try:
@@ -291,8 +362,21 @@ async def run_incarnation(env, cluster, case, i, spec, obs, boot):
                 gap = (txn.get("delays") or [0.0] * len(txn["sends"]))[j]
                 if gap:
                     await asyncio.sleep(gap)
+                mode = (txn.get("modes") or ["s"] * len(txn["sends"]))[j]
                 try:
-                    fut = await p.send(TOPIC, payload.encode(), partition=part, timestamp_ms=now_ms())
+                    if mode == "s":
+                        fut = await p.send(TOPIC, payload.encode(), partition=part, timestamp_ms=now_ms())
+                    else:
+                        builder = prebuilt.pop((t, j), None) or p.create_batch()
+                        if builder.append(key=None, value=payload.encode(), timestamp=now_ms()) is None:
+                            raise HarnessError("batch builder refused one small record")
+                        fut = await p.send_batch(builder, TOPIC, partition=part)
+                except E.KafkaTimeoutError:
+                    # documented back-pressure of send() / send_batch(): the record could not be queued within
+                    # request_timeout_ms (earlier batches of the partition still in flight to a slow leader);
+                    # the record is NOT accepted, nothing is claimed about it, the application goes on
+                    obs.backpressure += 1
+                    return None
                 except (E.KafkaError, AssertionError) as ex:
                     return ex
                 rid = obs.nrec
@@ -320,8 +404,10 @@ async def run_incarnation(env, cluster, case, i, spec, obs, boot):
             if txn["offsets"] and failed is None:
                 off = 100 + len(obs.txns) * 10 + t
                 rec["offset"] = off
+                omap = TC.offsets_map(TP, int(txn["offsets"]), off)
+                rec["offset_keys"] = [(k_.topic, k_.partition) for k_ in omap]
                 try:
-                    await p.send_offsets_to_transaction({TP(TOPIC, 2): off}, GROUP)
+                    await p.send_offsets_to_transaction(omap, GROUP)
                     rec["offset_ok"] = True
                     api("offs_ok", o=off)
                 except (E.KafkaError, AssertionError) as ex:
@@ -343,9 +429,9 @@ async def run_incarnation(env, cluster, case, i, spec, obs, boot):
                     rec["asked"] = "commit"
                     api("commit_call")
                     if ctx is not None:
-                        await ctx.__aexit__(None, None, None)
+                        await ending(t, ctx.__aexit__(None, None, None))
                     else:
-                        await p.commit_transaction()
+                        await ending(t, p.commit_transaction())
                     rec["outcome"] = "committed"
                     api("commit_ok")
                 else:
@@ -353,12 +439,12 @@ async def run_incarnation(env, cluster, case, i, spec, obs, boot):
                     api("abort_call")
                     if ctx is not None:
                         exc = RuntimeError("application error")
-                        await ctx.__aexit__(RuntimeError, exc, None)
+                        await ending(t, ctx.__aexit__(RuntimeError, exc, None))
                         if p._txn_manager.is_fatal_error():
                             rec["outcome"] = "fatal"
                             break
                     else:
-                        await p.abort_transaction()
+                        await ending(t, p.abort_transaction())
                     rec["outcome"] = "aborted"
                     api("abort_ok")
             except (E.KafkaError, AssertionError) as ex:
@@ -478,7 +564,7 @@ def translate(trace, obs):
                         rid = obs.payload_id.get(payload)
                         if rid is None:
                             raise HarnessError(f"record {payload!r} appended before send() returned")
-                        evs.append(f"A{i}.{tp[1]}.{rid}")
+                        evs.append(("A" if pp["is_txn"] else "N") + f"{i}.{tp[1]}.{rid}")
         elif ev == "api":
             i, op = e["i"], e["op"]
             if op == "begin":
@@ -524,7 +610,7 @@ def canon_reqs_ids(env, cluster, case, ids):
 def run_trace_case(env, case):
     """-> dict(events, sim (canonical final state of the simulator), holds (None | (sig, text)), hang, stats)"""
     sim = env.sim
-    cluster = sim.SimCluster(nodes=case["nodes"], topics={TOPIC: 3}, seed=case["seed"], jitter=case["jitter"])
+    cluster = sim.SimCluster(nodes=case["nodes"], topics={TOPIC: 3, TC.TOPIC2: 2}, seed=case["seed"], jitter=case["jitter"])
     cluster.txn_completion_delay = case["completion_delay"]
     cluster._coordinators[("txn", TXID)] = case["txn_node"]
     cluster._coordinators[("group", GROUP)] = case["grp_node"]
@@ -554,7 +640,6 @@ def run_trace_case(env, case):
     simtxt = " ".join(parts) + f" comm={comm if comm is not None else '-'} pend={pend if pend is not None else '-'}"
     # ---- the property itself, on what the application was told vs. an independent read-committed reader
     why = None
-    last_off = None
     for r in obs.txns:
         if r["outcome"] == "committed":
             for payload, o in r["recs"]:
@@ -564,20 +649,28 @@ def run_trace_case(env, case):
                 # records of the transaction the producer acknowledged (reading taken: "records of a
                 # transaction" = records whose send was acknowledged).  Such a record can legitimately be
                 # in the log: first attempt applied with the reply lost, retry answered with an error.
-            if r["offset_ok"]:
-                last_off = r["offset"]
         elif r["outcome"] == "aborted" or r["outcome"] == "killed-in-txn":
             for payload, _o in r["recs"]:
                 if payload in vis_all and why is None:
                     why = ("c07:aborted-visible", f"record {payload} of an aborted / fenced transaction ({r['outcome']}) is visible to a read-committed reader")
-            if r["offset"] is not None and comm == r["offset"] and why is None:
-                why = ("c07:aborted-offsets-committed", f"offset {r['offset']} of an aborted / fenced transaction is committed")
+    # offsets, partition by partition of the maps that were sent (1..3 partitions over two topics)
+    cm = cluster.committed(GROUP)
     indeterminate = any(r["outcome"] in ("failed", "fatal", "killed-in-commit", "killed-in-abort") and r["offset_ok"]
                         for r in obs.txns)
-    if why is None and last_off is not None and not indeterminate and comm != last_off:
-        later = [r for r in obs.txns if r["offset_ok"] and r["outcome"] == "committed"]
-        if later and later[-1]["offset"] != comm:
-            why = ("c07:committed-offsets-missing", f"offset {later[-1]['offset']} of a committed transaction is not the group's committed offset ({comm})")
+    keys = sorted({tuple(k_) for r in obs.txns for k_ in r.get("offset_keys", [])})
+    for key in keys:
+        expect = None
+        for r in obs.txns:
+            if key not in [tuple(k_) for k_ in r.get("offset_keys", [])]:
+                continue
+            if r["outcome"] in ("aborted", "killed-in-txn") and cm.get(key) == r["offset"] and why is None:
+                why = ("c07:aborted-offsets-committed",
+                       f"offset {r['offset']} of an aborted / fenced transaction is committed for {key}")
+            if r["outcome"] == "committed" and r["offset_ok"]:
+                expect = r["offset"]
+        if why is None and expect is not None and not indeterminate and cm.get(key) != expect:
+            why = ("c07:committed-offsets-missing",
+                   f"offset {expect} of a committed transaction is not the group's committed offset for {key} ({cm.get(key)})")
     # ---- liveness side (retriable faults only)
     live = None
     if not case["mixed"]:
@@ -594,11 +687,18 @@ def run_trace_case(env, case):
                 live = ("c07:retriable-fault-failed-send", f"under retriable faults only a send failed: {failed_recs[:3]}")
     elif hang:
         live = ("c07:hang", f"a call did not return within 900 virtual seconds: {hang}")
+    elif case.get("only_abortable"):
+        outs = [r["outcome"] for r in obs.txns]
+        if "fatal" in [c for _i, _w, c in obs.errors] or outs != ["aborted", "committed"]:
+            live = ("c07:abortable-error-became-fatal",
+                    f"an authorization error alone (offsets map of {case['incs'][0]['txns'][0]['offsets']} partitions) "
+                    f"did not stay abortable: outcomes {outs}, errors {obs.errors[:3]}")
     stats = {"events": len(evs), "txns": len(obs.txns),
              "outcomes": [r["outcome"] for r in obs.txns],
              "faults_fired": sum(1 for e in cluster.trace if e["ev"] == "fault"),
              "errors": [c for _i, _w, c in obs.errors],
              "concurrent": max([len(r["recs"]) for r in obs.txns] or [0]),
+             "backpressure": obs.backpressure,
              "reqs": canon_reqs_ids(env, cluster, case, ids)}
     return {"events": evs, "sim": simtxt, "holds": why, "live": live, "hang": hang, "stats": stats}
 
@@ -616,7 +716,10 @@ def _work(chunk):
                 out.append(run_trace_case(_ENV, case))
             else:
                 calls, fault, what = case
-                txt, d = TC.run_api_case(_ENV, list(calls), fault, what)
+                # sizes of the offsets maps (1, 2, 3 partitions) rotate from a start that depends on the program
+                import zlib
+                txt, d = TC.run_api_case(_ENV, list(calls), fault, what,
+                                         ovar=zlib.crc32(",".join(calls).encode()) % 3)
                 out.append((txt, {"per_call": d["per_call"], "res": d["res"], "futs": d["futs"],
                                   "reqs": d["reqs"], "views": d["views"]}))
         except Exception as ex:  # noqa
@@ -637,9 +740,9 @@ def gen_api_case(rng):
             if st_hint == "ready":
                 c = rng.choice(["b", "b", "b", "r"])
             else:
-                c = rng.choice(["s0", "s1", "s0", "s1", "o", "c", "a", "x", "e", "r"])
+                c = rng.choice(["s0", "s1", "s0", "s1", "t0", "t1", "k", "o", "o", "c", "a", "x", "e", "r"])
         else:
-            c = rng.choice(["b", "s0", "s1", "o", "c", "a", "x", "e", "r"])
+            c = rng.choice(["b", "s0", "s1", "t0", "t1", "k", "k", "o", "c", "a", "x", "e", "r"])
         calls.append(c)
         if c == "b" and st_hint == "ready":
             st_hint = "in"
@@ -823,7 +926,7 @@ def run(ctx):
         ctx.count(("api", s, f), nontrivial=("reqs=-" not in m))
         for r in C16.fields(txt).get("res", "-").split(","):
             hist_res[r] = hist_res.get(r, 0) + 1
-        if C16.normalise(m, txt) != m:
+        if C16.normalise(m, C16.strip_k(s, txt)) != m:
             mism.append(i)
     ctx.coverage["sequential_programs"] = len(api_cases)
     ctx.coverage["sequential_result_distribution"] = hist_res
@@ -839,6 +942,11 @@ def run(ctx):
         "reply / CONCURRENT_TRANSACTIONS / LOAD_IN_PROGRESS back-off / lost reply), and one batch failing for good "
         "while a batch on another leader is unacknowledged when the transaction is ended; the client side of the "
         "connections is observed at AIOKafkaClient.send (Produce handed over, AddPartitionsToTxn acknowledged); "
+        "35 % of the transactions use the batch API: create_batch() before begin / while the previous transaction is "
+        "being ended / inside the transaction, send_batch() inside it (the transactional flag of every appended batch "
+        "is an acceptor event); send_offsets maps have 1..3 partitions over two topics, abortable errors at "
+        "TxnOffsetCommit / AddOffsetsToTxn / the group-coordinator lookup (+ 72 exact schedules for both); the "
+        "sequential programs have the letters k (create_batch) and t0/t1 (send_batch); "
         "non-trivial = >= 1 transaction and >= 10 events. "
         "A: seeded sequential programs of 3..12 calls incl. kill-and-restart with at most one fault, compared with the "
         "API automaton; non-trivial = sends a transactional request. distinct by case text")
